@@ -45,6 +45,23 @@ if TYPE_CHECKING:
     from gemseo.utils.derivatives.approximation_modes import ApproximationMode
 
 
+def _copy_database_value(value: OutputType) -> OutputType:
+    """Return a copy of a value stored in the database.
+
+    The database stores the values by reference:
+    returning a copy lets the caller modify in place what a function returned
+    without modifying the value stored in the database.
+
+    Args:
+        value: The value stored in the database.
+
+    Returns:
+        A copy of the value if it is an array, otherwise the value.
+    """
+    copy_ = getattr(value, "copy", None)
+    return value if copy_ is None else copy_()
+
+
 class ProblemFunction(MDOFunction, Serializable):
     """A function to be attached to a problem."""
 
@@ -240,7 +257,7 @@ class ProblemFunction(MDOFunction, Serializable):
             )
             database.store(hashed_xu, {name: output_value})
 
-        return output_value
+        return _copy_database_value(output_value)
 
     def _compute_jacobian_db(self, input_value: NumberArray) -> NumberArray:
         """Compute the Jacobian from a database and an input value.
@@ -272,7 +289,7 @@ class ProblemFunction(MDOFunction, Serializable):
             if self.__store_jacobian:
                 database.store(hashed_xu, {name: jacobian})
 
-        return jacobian
+        return _copy_database_value(jacobian)
 
     def _compute_output_db_norm(self, input_value: NumberArray) -> NumberArray:
         """Compute the output value from a database and a normalized input value.
@@ -304,7 +321,7 @@ class ProblemFunction(MDOFunction, Serializable):
             )
             database.store(hashed_xu, {self.name: output_value})
 
-        return output_value
+        return _copy_database_value(output_value)
 
     def _compute_jacobian_db_norm(self, input_value: NumberArray) -> NumberArray:
         """Compute the Jacobian assisted by a database from a normalized input value.
